@@ -44,6 +44,9 @@ func init() {
 			"From every state reached by the operation under test the follow-ups uninstall, rollback, upgrade-updating-the-slots and upgrade-removing-the-slots are executed; " +
 			"every transition is the real action on a clone of the state; states = canonical worlds. distinct = (backend, context, chart, take-ownership, placement vector, step); " +
 			"non-trivial = at least one slot occupied (counter cases_with_occupied_chart_slot). " +
+			"Retry contexts: upgrade adding the slots after a first attempt that FAILED before creating any of them (failed pre-upgrade hook | rejected create of the first new resource): ledger 1:deployed 2:failed, then the placements, then the retry. " +
+			"Carry-over family: release owns {b0 + slots}; every subset of its live objects is deleted out-of-band; then {upgrade changing the content | upgrade with the identical chart | rollback} x --force on/off x take-ownership on/off (upgrades); " +
+			"oracle (b): every manifest object carries the ownership metadata afterwards (re-created and PUT-replaced objects included). " +
 			"Mid-operation injection family: {install of one slot, install of two slots adopting an owned one, upgrade adding a slot, rollback re-creating a slot} (take-ownership off) x slot in {a,s,w,cr} x " +
 			"injected object kind in {foreign,other-release,other-ns} (thorough: all 7 not-owned kinds, + Secret backend) x every call position k of the operation's plain run " +
 			"(another actor creates the object right before call k is handled, via the server's gate); oracle: what was not owned when Helm first wrote to its path is byte-identical afterwards, " +
@@ -64,6 +67,7 @@ func init() {
 			"delete-checked", "hook-delete-checked", "bystander-compared", "uninstall-ok", "rollback-ok", "upgrade-removes-slots", "upgrade-updates-slots",
 			"uninstall-after-refusal", "rollback-recreates",
 			"refused-cluster-scoped-other-ns:install", "refused-cluster-scoped-other-ns:replace", "refused-cluster-scoped-other-ns:upgrade", "takeover-cluster-scoped",
+			"refused:retry-after-failed-upgrade", "carry:recreated-stamped", "carry:force-replaced-stamped", "carry:rollback-recreated-stamped",
 			"inject:install", "inject:install-adopting", "inject:upgrade", "inject:rollback", "inject-refused-pre-check", "inject-create-409", "inject-abort-not-in-original", "inject-untouched-checked",
 		},
 	})
@@ -266,6 +270,18 @@ type ctxDef struct {
 	Ledger int // revisions of r (or of the other release) before the operation under test
 	Prefix func(mask int) []opspace.Step
 	Under  func(mask int) hx.Op
+	// SlotsAbsentAfterPrefix: the prefix ends with a failed attempt that must not have created any chart slot.
+	SlotsAbsentAfterPrefix bool
+}
+
+// firstApplied: the chart slot kube.Client.update visits first (Helm's install order: ConfigMap, ClusterRole, Service, unknown kinds).
+func firstApplied(mask int) slot {
+	for _, i := range []int{0, 3, 1, 2} {
+		if mask&(1<<i) != 0 {
+			return slots[i]
+		}
+	}
+	panic("empty mask")
 }
 
 func opStep(o hx.Op) opspace.Step { return opspace.Step{Op: o} }
@@ -308,6 +324,26 @@ func contexts(thorough bool) []ctxDef {
 			add("replace/ledger-2", "replace", 2, []opspace.Step{installBase, upgradeBase2, keep}, install(true))
 			add("upgrade/ledger-1/keep-base", "upgrade", 1, []opspace.Step{installBase}, upgrade(1))
 			add("upgrade/ledger-2/drop-base", "upgrade", 2, []opspace.Step{installBase, upgradeBase2}, upgrade(0))
+			// retry of an upgrade whose first attempt FAILED before any slot was created: ledger 1:deployed 2:failed, the failed
+			// revision's manifest already names the slots, the deployed one does not -> the slots are still "would be created"
+			retry := func(name string, fault func(mask int) *sim.Fault) {
+				hk, t := hook, to
+				out = append(out, ctxDef{Name: name + hn, Kind: "upgrade", TO: to, Hook: hook, Ledger: 2, SlotsAbsentAfterPrefix: true,
+					Prefix: func(mask int) []opspace.Step {
+						return []opspace.Step{installBase, {Op: hx.Op{Kind: "upgrade", Chart: chartC(mask, 1, 1, hk, "1")}, Fault: fault(mask)}}
+					},
+					Under: func(mask int) hx.Op {
+						return hx.Op{Kind: "upgrade", Chart: chartC(mask, 1, 1, hk, "1"), TakeOwnership: t}
+					}})
+			}
+			if hook {
+				retry("upgrade/retry-after-failed-pre-upgrade-hook", func(int) *sim.Fault {
+					return &sim.Fault{Label: "wait:WatchUntilReady h", Occurrence: 0, Kind: "wait-fail"}
+				})
+			}
+			retry("upgrade/retry-after-rejected-create", func(mask int) *sim.Fault {
+				return &sim.Fault{Label: "POST " + resOfPath(slotPath(firstApplied(mask))), Occurrence: 0, Kind: "reject"}
+			})
 			if thorough {
 				add("upgrade/ledger-1/change-base", "upgrade", 1, []opspace.Step{installBase}, upgrade(2))
 				add("upgrade/ledger-1/drop-base", "upgrade", 1, []opspace.Step{installBase}, upgrade(0))
@@ -907,6 +943,19 @@ func (x *explorer) prefix(drv string, cx ctxDef, mask int) *prefixState {
 		}
 		ps.w, ps.path = t.Post, t.Path
 	}
+	if cx.SlotsAbsentAfterPrefix && ps.ok {
+		hist := ps.w.History(rel)
+		if len(hist) != 2 || hist[0].Info.Status != rspb.StatusDeployed || hist[1].Info.Status != rspb.StatusFailed {
+			ps.ok = false
+			x.c.NotExhaustive("prefix of %s: ledger is %s, expected 1:deployed 2:failed", cx.Name, hx.StatusVector(hist))
+		}
+		for i, sl := range slots {
+			if _, exists := ps.w.Sim.Get(slotPath(sl)); exists && mask&(1<<i) != 0 {
+				ps.ok = false
+				x.c.NotExhaustive("prefix of %s: the failed attempt created %s/%s", cx.Name, sl.Kind, sl.Name)
+			}
+		}
+	}
 	x.prefixes[key] = ps
 	return ps
 }
@@ -944,6 +993,7 @@ func run(c *core.Ctx) {
 			}
 		}
 	}
+	x.carryOverFamily()
 	x.injectFamily()
 }
 
@@ -991,6 +1041,9 @@ func (x *explorer) scenario(drv string, cx ctxDef, mask int, pl placement) {
 		}
 		if cx.Ledger > 0 {
 			c.Floor("refused-on-populated-ledger")
+		}
+		if cx.SlotsAbsentAfterPrefix {
+			c.Floor("refused:retry-after-failed-upgrade")
 		}
 	case v.ExpectRefusal:
 		out = "REFUSAL-MISSING"
